@@ -154,8 +154,13 @@ func (up *UsagePool) Range(f func(key, value any) bool) {
 	up.RLock()
 	defer up.RUnlock()
 	for key, upv := range up.pool {
-		verifYield(up, 6, upv)
-		upv.RLock()
+		// a value that is still being constructed by LoadOrNew is
+		// not in the pool yet as far as we are concerned; don't wait
+		// for it while holding the pool lock, because LoadOrNew needs
+		// that lock to clean up if the constructor fails
+		if !upv.TryRLock() {
+			continue
+		}
 		if upv.err != nil {
 			upv.RUnlock()
 			continue
